@@ -122,17 +122,11 @@ Proof.
 Qed.
 
 (* ------------------------------------------------------------------ Rotate
-   All of Deque.Rotate (Generated/Deque.v, "Deque.Rotate#prefix": the early returns,
+   All of Deque.Rotate (Generated/Deque.v, translated whole: the early returns,
    n %= q.count, modBits, the full-buffer fast path, and the two element-moving loops with
    their writes to q.buf, q.head, q.tail) is the model's rotate: whatever return statement is
    reached, the deque then has the head, tail and buffer the translated source assigned; the
    source panics (index out of range) exactly when the model crashes. *)
-
-Definition rot_state (r : frag (Z * Z * list Z) (Z * Z * Z * Z * list Z)) : Z * Z * list Z :=
-  match r with
-  | Returned _ w => w
-  | Reached (_, _, h, t, b) => (h, t, b)
-  end.
 
 Definition small62 (x : Z) : Prop := - 2 ^ 62 < x < 2 ^ 62.
 
@@ -155,17 +149,17 @@ Section RotateLoops.
   Qed.
 
   Lemma loop1_spec : forall k fuel h t b, (k < fuel)%nat -> small62 h -> small62 t -> Z.of_nat k < 2 ^ 62 ->
-    go_Deque_Rotate_prefix_loop1 fuel m (- Z.of_nat k, h, t, b) =
+    go_Deque_Rotate_loop1 fuel m (- Z.of_nat k, h, t, b) =
     match rot_back_to_front 0 k b h t m with
     | Some (b', h', t') => Ok (inl (0, h', t', b'))
     | None => Panic
     end.
   Proof.
-    unfold go_Deque_Rotate_prefix_loop1, small62.
+    unfold go_Deque_Rotate_loop1, small62.
     change (2 ^ 62) with 4611686018427387904 in *.
     induction k as [|k IH]; intros fuel h t b Hf Hh Ht Hk; (destruct fuel as [|fuel]; [lia|]).
     - rewrite go_loop_S. cbn. reflexivity.
-    - rewrite go_loop_S. unfold go_Deque_Rotate_prefix_loop1_body at 1.
+    - rewrite go_loop_S. unfold go_Deque_Rotate_loop1_body at 1.
       destruct (Z.ltb_spec (- Z.of_nat (S k)) 0); [|lia].
       rewrite (wrap64 (h - 1)), (wrap64 (t - 1)) by lia.
       cbn [rot_back_to_front]. unfold Model.bind.
@@ -179,17 +173,17 @@ Section RotateLoops.
   Qed.
 
   Lemma loop2_spec : forall k fuel h t b, (k < fuel)%nat -> small62 h -> small62 t -> Z.of_nat k < 2 ^ 62 ->
-    go_Deque_Rotate_prefix_loop2 fuel m (Z.of_nat k, h, t, b) =
+    go_Deque_Rotate_loop2 fuel m (Z.of_nat k, h, t, b) =
     match rot_front_to_back 0 k b h t m with
     | Some (b', h', t') => Ok (inl (0, h', t', b'))
     | None => Panic
     end.
   Proof.
-    unfold go_Deque_Rotate_prefix_loop2, small62.
+    unfold go_Deque_Rotate_loop2, small62.
     change (2 ^ 62) with 4611686018427387904 in *.
     induction k as [|k IH]; intros fuel h t b Hf Hh Ht Hk; (destruct fuel as [|fuel]; [lia|]).
     - rewrite go_loop_S. cbn. reflexivity.
-    - rewrite go_loop_S. unfold go_Deque_Rotate_prefix_loop2_body at 1.
+    - rewrite go_loop_S. unfold go_Deque_Rotate_loop2_body at 1.
       destruct (Z.gtb_spec (Z.of_nat (S k)) 0); [|lia].
       cbn [rot_front_to_back]. unfold Model.bind.
       rewrite getz_index. destruct (getz b h) as [x|]; [|reflexivity]. cbn [GoSem.bind].
@@ -205,15 +199,15 @@ End RotateLoops.
 Lemma src_rotate (d : @deque Z) n0 fuel :
   0 < cap d < 2 ^ 62 -> small62 (count d) -> - 2 ^ 63 <= n0 < 2 ^ 63 ->
   small62 (head d) -> small62 (tail d) -> (Z.to_nat (Z.abs (count d)) < fuel)%nat ->
-  match go_Deque_Rotate_prefix fuel (head d) (tail d) (buf d) (count d) n0 with
-  | Ok r => let '(h, t, b) := rot_state r in rotate 0 d n0 = Some (mkDeque b h t (count d) (minCap d))
+  match go_Deque_Rotate fuel (head d) (tail d) (buf d) (count d) n0 with
+  | Ok (h, t, b) => rotate 0 d n0 = Some (mkDeque b h t (count d) (minCap d))
   | Panic => rotate 0 d n0 = None
   | OutOfFuel => False
   end.
 Proof.
   unfold small62. intros Hc Hn H0 Hh Ht Hf.
   change (2 ^ 63) with 9223372036854775808 in *. change (2 ^ 62) with 4611686018427387904 in *.
-  unfold rotate, go_Deque_Rotate_prefix. cbv zeta.
+  unfold rotate, go_Deque_Rotate. cbv zeta.
   destruct (Z.leb_spec (count d) 1) as [|Hgt]; [destruct d; reflexivity|].
   rewrite go_rem_ok by lia. cbn [GoSem.bind].
   assert (Hr : Z.abs (Z.rem n0 (count d)) < count d).
@@ -560,8 +554,8 @@ Definition go_step (d : @deque Z) (o : op Z) : outcome (@deque Z * out Z) :=
       bind (go_Deque_Clear (S (S (length (buf d)))) (buf d) (head d) (tail d) (count d))
            (fun '(b, h, t, c) => Ok (mkDeque b h t c (minCap d), ONone))
   | Rotate n =>
-      bind (go_Deque_Rotate_prefix (S (Z.to_nat (Z.abs (count d)))) (head d) (tail d) (buf d) (count d) n)
-           (fun r => let '(h, t, b) := rot_state r in Ok (mkDeque b h t (count d) (minCap d), ONone))
+      bind (go_Deque_Rotate (S (Z.to_nat (Z.abs (count d)))) (head d) (tail d) (buf d) (count d) n)
+           (fun '(h, t, b) => Ok (mkDeque b h t (count d) (minCap d), ONone))
   | SetMinCap e =>
       Ok (mkDeque (buf d) (head d) (tail d) (count d) (go_Deque_SetMinCapacity (minCap d) e), ONone)
   end.
@@ -659,8 +653,8 @@ Proof.
     pose proof (src_rotate d n (S (Z.to_nat (Z.abs (count d))))) as R.
     unfold small62 in R. change (2 ^ 62) with 4611686018427387904 in *.
     specialize (R ltac:(lia) ltac:(lia) Hn0 ltac:(lia) ltac:(lia) ltac:(lia)).
-    destruct (go_Deque_Rotate_prefix _ _ _ _ _ _) as [r| |]; cbn [bind].
-    + destruct (rot_state r) as [[h t] b]. rewrite R. reflexivity.
+    destruct (go_Deque_Rotate _ _ _ _ _ _) as [[[h t] b]| |]; cbn [bind].
+    + rewrite R. reflexivity.
     + rewrite R. right; reflexivity.
     + contradiction.
   - rewrite src_set_min_cap by exact Ha. reflexivity.
